@@ -92,6 +92,37 @@ fn ip_check(seed: u64) -> Run {
     Run { world: w, horizon, desc }
 }
 
+/// An interface that goes away while a service with automatic addresses is probing on it, and comes back with
+/// the same index and address a few checks later: the probes left over there are long overdue, the daemon has
+/// to take them up when it notices the interface, not an interface check later.
+fn interface_flap_while_probing(seed: u64) -> Run {
+    let mut rng = Rng::new(seed);
+    let mut w = World::new(seed);
+    w.set_stepping(Stepping::Lazy);
+    let two = rng.chance(1, 2);
+    let full = if two { scen::two_v4() } else { scen::single_v4() };
+    let h = w.add_host(full.clone());
+    let _ = w.monitor(h);
+    let check = *rng.pick(&[1u32, 2, 5]);
+    w.set_ip_check_interval(h, check);
+    w.run_for(5500);
+    let t0 = w.now();
+    let mut reg = World::reg_info("_t._udp.local.", "flappy", "flappy-host.local.", &[], 80, &[("k", Some(b"v"))]);
+    reg.addr_auto = true;
+    w.register(h, reg);
+    // away inside the probing window (a check must fall into it: the checks are `check` seconds apart)
+    let away_at = rng.below(700);
+    w.run_until(t0 + away_at);
+    let gone: Vec<IfSpec> = if two { full.iter().filter(|i| i.index != 3).cloned().collect() } else { Vec::new() };
+    w.set_ifs(h, gone, "interface-away");
+    let back_after = 1000 * check as u64 + rng.below(3000 * check as u64);
+    w.run_until(t0 + away_at + back_after);
+    w.set_ifs(h, full, "interface-back");
+    let horizon = t0 + away_at + back_after + 1000 * check as u64 * 3 + 5000;
+    w.run_until(horizon);
+    Run { world: w, horizon, desc: format!("interface-flap-while-probing check={check}s two={two} away=+{away_at} back=+{}", away_at + back_after) }
+}
+
 /// Records that expire, are withdrawn, flushed or verified on an otherwise silent network.
 fn expiry(seed: u64) -> Run {
     let mut rng = Rng::new(seed);
@@ -211,6 +242,7 @@ pub const SCENARIOS: &[(&str, ScenarioFn)] = &[
     ("ip-check", ip_check),
     ("expiry", expiry),
     ("follow-up", follow_up),
+    ("interface-flap", interface_flap_while_probing),
 ];
 
 // ---------------------------------------------------------------------------
